@@ -33,7 +33,7 @@ Lemma cd_in : inF cd. Proof. unfold inF. vm_compute. split; [discriminate | refl
 Lemma cd2_in : inF cd2. Proof. unfold inF. vm_compute. split; [discriminate | reflexivity]. Qed.
 Lemma cd2_eqm : eqm cd2 (2 * cd). Proof. vm_compute. reflexivity. Qed.
 Lemma sqrtm1_in : inF sqrtm1. Proof. unfold inF. vm_compute. split; [discriminate | reflexivity]. Qed.
-Lemma sqrtm1_sq : eqm (sqrtm1 * sqrtm1) (- 1). Proof. vm_compute. reflexivity. Qed.
+Lemma sqrtm1_sq : eqm (sqrtm1 * sqrtm1 + 1) 0. Proof. vm_compute. reflexivity. Qed.
 Lemma one_in : inF 1. Proof. unfold inF, fp. lia. Qed.
 
 Ltac inF_tac := repeat first [ assumption | apply fmul_in | apply fsq_in | apply fadd_in | apply fsub_in
@@ -93,6 +93,9 @@ Proof.
   clearbody X' T'. rewrite EX, ET. clear - C1 C2. split; nsatz.
 Qed.
 
+Lemma sqrt_fixup x i V U : eqm (i * i + 1) 0 -> eqm 0 (x * x * V + U) -> eqm (x * i * (x * i) * V) U.
+Proof. intros H1 H2. nsatz. Qed.
+
 (* decompression (FromBytes) returns only points of the curve, for every 256-bit input: the accepted
    candidate satisfies v x^2 = u, which is the curve equation; the sqrt(-1) fix-up and the sign
    adjustment keep x^2 *)
@@ -128,19 +131,19 @@ Proof.
     split; [unfold wf; cbn [pX pY pZ pT]; tauto|]. split; [|reflexivity].
     unfold Cv. cbn [pX pY pZ pT]. clearbody t y.
     rewrite Et. clear - Ex' Hx. split; nsatz. }
-  clearbody y.
+  clearbody vxx xs u v yd yy x1 y. clear v3 x0 Rv3 Rx0 Rpw.
   destruct (Z.eqb_spec (fsub vxx u) 0) as [H0|H0].
-  - intro H. injection H as <-. apply (Hfin x1 Rx1).
+  - cbv beta iota zeta. intro H. injection H as <-. apply (Hfin x1 Rx1).
     pose proof (fsub_eqm vxx u Rvxx Ru) as Es. rewrite H0 in Es.
-    clearbody vxx xs u v yd yy x1.
     rewrite Evxx, Exs, Ev, Eyd, Eu, Eyy in Es. clear - Es. nsatz.
   - destruct (Z.eqb_spec (fadd vxx u) 0) as [H1|H1]; [|discriminate].
-    intro H. injection H as <-.
+    cbv beta iota zeta. intro H. injection H as <-.
     pose proof sqrtm1_in as Rs. pose proof sqrtm1_sq as Ess.
     pose proof (fmul_eqm x1 sqrtm1 Rx1 Rs) as Em. pose proof (fmul_in x1 sqrtm1 Rx1 Rs) as Rm.
     apply (Hfin _ Rm).
     pose proof (fadd_eqm vxx u Rvxx Ru) as Es. rewrite H1 in Es.
     set (xm := fmul x1 sqrtm1) in *. set (i := sqrtm1) in *.
-    clearbody vxx xs u v yd yy x1 xm i.
-    rewrite Evxx, Exs, Ev, Eyd, Eu, Eyy in Es. rewrite Em. clear - Es Ess. nsatz.
+    clearbody xm i.
+    rewrite Evxx, Exs, Ev, Eyd, Eu, Eyy in Es. rewrite Em. clear - Es Ess.
+    set (V := y * y * cd + 1) in *. set (U := y * y - 1) in *. clearbody V U. clear y. nsatz.
 Qed.
